@@ -228,7 +228,7 @@ func (r *Report) finish() int {
 			if r.opt.NoNative {
 				r.inconcl = append(r.inconcl, fmt.Sprintf("%s: solver counterexample for %s %q not replayed (native replay disabled)", v.Harness, v.Kind, v.ID))
 			} else {
-				r.mismatch = append(r.mismatch, fmt.Sprintf("%s: counterexample for %s %q did not reproduce natively: %s", v.Harness, v.Kind, v.ID, v.Note))
+				r.mismatch = append(r.mismatch, fmt.Sprintf("%s: counterexample for %s %q (%s) did not reproduce natively: %s [decisions %s]", v.Harness, v.Kind, v.ID, v.Detail, v.Note, v.Case.Decisions))
 			}
 			continue
 		}
